@@ -342,6 +342,47 @@ pub open spec fn batch_ok(items: Seq<ZoomRecord>) -> bool {
     &&& forall|i: int, j: int| 0 <= i < j < items.len() ==> (#[trigger] items[i]).end <= (#[trigger] items[j]).start
 }
 
+// `.iter().map(|i| i.start|end).fold(init, u32::max)` and `.max()/.min().unwrap()` (not used by the code today; present so
+// that an edit computing the section bounds this way is judged).  ASSUMED std contracts: the fold is the maximum of the
+// initial value and every mapped element.
+pub open spec fn max_start_upto(s: Seq<ZoomRecord>, n: int, init: u32) -> u32 decreases n {
+    if n <= 0 || n > s.len() { init } else { let m = max_start_upto(s, n - 1, init); if s[n - 1].start > m { s[n - 1].start } else { m } }
+}
+pub open spec fn max_end_upto(s: Seq<ZoomRecord>, n: int, init: u32) -> u32 decreases n {
+    if n <= 0 || n > s.len() { init } else { let m = max_end_upto(s, n - 1, init); if s[n - 1].end > m { s[n - 1].end } else { m } }
+}
+fn fold_max_start(v: &Vec<ZoomRecord>, init: u32) -> (r: u32) ensures r == max_start_upto(v@, v@.len() as int, init) {
+    let mut m = init; let mut i: usize = 0;
+    while i < v.len() invariant i <= v.len(), m == max_start_upto(v@, i as int, init) decreases v.len() - i { if v[i].start > m { m = v[i].start; } i = i + 1; }
+    m
+}
+fn fold_max_end(v: &Vec<ZoomRecord>, init: u32) -> (r: u32) ensures r == max_end_upto(v@, v@.len() as int, init) {
+    let mut m = init; let mut i: usize = 0;
+    while i < v.len() invariant i <= v.len(), m == max_end_upto(v@, i as int, init) decreases v.len() - i { if v[i].end > m { m = v[i].end; } i = i + 1; }
+    m
+}
+fn max_of_end(v: &Vec<ZoomRecord>) -> (r: u32) requires v@.len() > 0 ensures r == max_end_upto(v@, v@.len() as int, 0) { fold_max_end(v, 0) }
+fn max_of_start(v: &Vec<ZoomRecord>) -> (r: u32) requires v@.len() > 0 ensures r == max_start_upto(v@, v@.len() as int, 0) { fold_max_start(v, 0) }
+#[verifier::external_body] fn min_of_end(v: &Vec<ZoomRecord>) -> (r: u32) { unimplemented!() }
+#[verifier::external_body] fn min_of_start(v: &Vec<ZoomRecord>) -> (r: u32) { unimplemented!() }
+/// the maximum end of sorted disjoint records is the last record's end
+proof fn lemma_max_end_sorted(s: Seq<ZoomRecord>, n: int)
+    requires 0 < n <= s.len(), forall|i: int, j: int| 0 <= i < j < s.len() ==> (#[trigger] s[i]).end <= (#[trigger] s[j]).start, forall|i: int| 0 <= i < s.len() ==> (#[trigger] s[i]).start < s[i].end,
+    ensures max_end_upto(s, n, 0) == s[n - 1].end, max_end_upto(s, n, s[0].end) == s[n - 1].end,
+    decreases n
+{
+    if n > 1 {
+        lemma_max_end_sorted(s, n - 1);
+        assert(s[n - 2].end <= s[n - 1].start);
+        assert(max_end_upto(s, n, 0) == (if s[n - 1].end > max_end_upto(s, n - 1, 0) { s[n - 1].end } else { max_end_upto(s, n - 1, 0) }));
+        assert(max_end_upto(s, n, s[0].end) == (if s[n - 1].end > max_end_upto(s, n - 1, s[0].end) { s[n - 1].end } else { max_end_upto(s, n - 1, s[0].end) }));
+    } else {
+        assert(max_end_upto(s, 0, 0) == 0 && max_end_upto(s, 0, s[0].end) == s[0].end);
+        assert(max_end_upto(s, 1, 0) == (if s[0].end > max_end_upto(s, 0, 0) { s[0].end } else { max_end_upto(s, 0, 0) }));
+        assert(max_end_upto(s, 1, s[0].end) == (if s[0].end > max_end_upto(s, 0, s[0].end) { s[0].end } else { max_end_upto(s, 0, s[0].end) }));
+    }
+}
+
 pub fn encode_zoom_section(
     compress: bool,
     items_in_section: Vec<ZoomRecord>,
